@@ -625,6 +625,12 @@ def observe(cfg, want):
                 rows.append({"method": method, "x": lift.lift_enc(xyz[0]), "y": lift.lift_enc(xyz[1]), "z": lift.lift_enc(xyz[2]),
                              "rev": rev, "abc": [lift.lift_enc(f.a[1]), lift.lift_enc(f.b[0]), lift.lift_enc(f.c[1])]})
             obs["utility"] = rows
+        if "meshindex" in W:
+            G = np.asarray(c.m.cell_numbers())
+            G = G.reshape([n + 2 for n in np.asarray(c.m.dims).tolist()]) if G.ndim != d else G
+            obs["meshindex"] = {"nums": [[[int(i) for i in idx], int(v)] for idx, v in np.ndenumerate(G)],
+                                "corners": [int(x) for x in np.asarray(c.m.corners).ravel()],
+                                "edges": [int(x) for x in np.asarray(c.m.edges).ravel()]}
         if "integral" in W:
             import math
             e = {"CylindricalGrid1D": 1, "SphericalGrid1D": 1, "CylindricalGrid2D": 1, "SphericalGrid3D": -1}.get(cfg["cls"], 0)
